@@ -70,8 +70,8 @@ theorem exec_acc (run : ProbeRunner) {s : St} {fl : List Nat} (H : HInv s fl)
       exact ⟨w1, by simp only [exec, hr]; rfl, hpool, hks⟩
   | new p ids vals rels =>
     obtain ⟨hnd, hreg, ⟨hrnd, hrin, hrall⟩, hv⟩ := hp
-    have hg' : ((∀ c ∈ ids, c < s.ss.zst.length) ∧ RelsWF s.ss.isRel ids rels) ∧
-        relsExpr s p rels = true := by
+    have hg' : ((∀ c ∈ ids, c < s.ss.zst.length) ∧ RelsStep s.ss.isRel p ids rels) ∧
+        tgtsExpr s rels = true := by
       simpa only [guard, Bool.and_eq_true, List.all_eq_true, decide_eq_true_eq] using hg
     have hreg' : ∀ (c : Comp), c ∈ ids → c < s.w.kinds.length := by rw [← H.zlen]; exact hreg
     have hin : ∀ (r : RelID), r ∈ rels → r.comp ∈ ids := fun r hr => (hrin r hr).1
@@ -81,7 +81,7 @@ theorem exec_acc (run : ProbeRunner) {s : St} {fl : List Nat} (H : HInv s fl)
     | panic k w1 => simp only [exec, hop] at hex; cases hex
     | ok e w1 =>
       have post := opNewEntity_rel_spec run p H.tinv H.unlocked H.noObs hreg' hrnd hin hrc
-        (H.tgts_in (relsExpr_iff.mp hg'.2).1) hfew' hent' hop
+        (H.tgts_in hg'.2) hfew' hent' hop
       have more := opNewEntity_rel_more run p H.tinv H.unlocked H.noObs hreg' hrnd hin hfew' hent'
         hop
       have he : e = (s.w.pool.get).2 := post.ent
@@ -92,8 +92,8 @@ theorem exec_acc (run : ProbeRunner) {s : St} {fl : List Nat} (H : HInv s fl)
     have hm := find_some_mem hf
     obtain ⟨_, ha, h2, hnf, _, hsl0⟩ := H.live_facts hm
     have hsl := Pool.lt_of_slot hsl0
-    have hg' : ((e ∈ s.issued ∧ ∀ c ∈ ids, c < s.ss.zst.length) ∧ RelsWF s.ss.isRel ids rels) ∧
-        relsExpr s p rels = true := by
+    have hg' : ((e ∈ s.issued ∧ ∀ c ∈ ids, c < s.ss.zst.length) ∧ RelsStep s.ss.isRel p ids rels) ∧
+        tgtsExpr s rels = true := by
       simpa only [guard, Bool.and_eq_true, List.all_eq_true, decide_eq_true_eq] using hg
     have hreg' : ∀ (c : Comp), c ∈ ids → c < s.w.kinds.length := by
       rw [← H.zlen]; exact hg'.1.1.2
